@@ -39,6 +39,8 @@ static struct msg msgs[MAXM];
 static int nmsgs, script_pos, tx_order;
 static int cur_submit = -1;
 static const char *last_event = "start";
+static int in_prepare, suspect[2];
+static char suspect_event[2][64];
 static char last_event_buf[64];
 
 static struct msg *
@@ -91,10 +93,17 @@ on_send(const ns_dgram_t *d) {
           vx_fail("order:held-overtaken", "CON #%d first transmitted before earlier-submitted CON #%d (event: %s)", xi, j, last_event);
       int fl = inflight(s) + 1;
       if (fl > nstart_of(s)) {
-        char sig[100];
-        snprintf(sig, sizeof sig, "over-nstart:after:%s", last_event);
-        vx_fail(sig, "session %d: %d Confirmables in flight with NSTART=%d when CON #%d was first transmitted (event: %s)", s, fl,
-                nstart_of(s), xi, last_event);
+        if (in_prepare) {
+          /* inside coap_io_prepare_io() a give-up frees the slot before its NACK callback is made: judge when the call
+           * has returned (the given-up message is marked by the NACK handler) */
+          suspect[s] = xi + 1;
+          snprintf(suspect_event[s], sizeof suspect_event[s], "%s", last_event);
+        } else {
+          char sig[100];
+          snprintf(sig, sizeof sig, "over-nstart:after:%s", last_event);
+          vx_fail(sig, "session %d: %d Confirmables in flight with NSTART=%d when CON #%d was first transmitted (event: %s)", s, fl,
+                  nstart_of(s), xi, last_event);
+        }
       }
     }
   } else {
@@ -132,6 +141,18 @@ raw_rx(const ns_dgram_t *d) {
   if (m.type > 1)
     return;
   int verdict = m.type == 0 ? 0 : 2; /* 0 ACK, 1 RST, 2 nothing */
+  if (C->peer_mode == 2 && m.type == 0) {
+    /* the peer never receives the first Confirmable of the script (every copy is lost): it ends by give-up while
+     * later ones are held */
+    struct msg *x0 = NULL;
+    for (int i = 0; i < nmsgs && !x0; i++)
+      if (msgs[i].submitted && msgs[i].is_con && msgs[i].sess == 0)
+        x0 = &msgs[i];
+    if (x0 && x0->mid == (int)m.mid && ns_addr_host(&d->dst) == ns_addr_host(&peer[0])) {
+      vx_observe("   peer: copy of mid=%04x lost", m.mid);
+      return;
+    }
+  }
   if (C->peer_mode == 1 && vx_budget_left() > 0) {
     if (m.type == 0) {
       static const int alts[3] = {0, 1, 2};
@@ -234,7 +255,17 @@ step(void) {
   uint8_t cost[VX_MAXALT];
   int n = 0;
   last_event = "timer-service";
+  in_prepare = 1;
+  suspect[0] = suspect[1] = 0;
   unsigned tmo = ns_prepare_all();
+  in_prepare = 0;
+  for (int s = 0; s < 2; s++)
+    if (suspect[s] && inflight(s) > nstart_of(s)) {
+      char sig[100];
+      snprintf(sig, sizeof sig, "over-nstart:after:%s", suspect_event[s]);
+      vx_fail(sig, "session %d: %d Confirmables in flight with NSTART=%d after CON #%d was first transmitted (event: %s)", s, inflight(s),
+              nstart_of(s), suspect[s] - 1, suspect_event[s]);
+    }
   check_no_idle_slot();
   int nf = ns_inflight_count();
   int app = app_ready();
@@ -381,9 +412,19 @@ main(int argc, char **argv) {
           }
         }
       }
+  /* the first Confirmable is given up (all its copies lost) while later messages wait for its slot */
+  for (int ns = 1; ns <= 2; ns++)
+    for (int k = ns + 1; k <= (T ? 5 : 4); k++)
+      for (int v = 0; v < 2; v++) {
+        struct cfg c = {.nstart = ns, .k = k, .split = v ? 2 : 0, .bystander = 0, .peer_mode = 2, .max_retx = 2, .bound = T ? 2 : 1};
+        memset(c.types, 'C', (size_t)k);
+        if (v && k >= 3)
+          c.types[k - 1] = 'N';
+        add(c);
+      }
   vx_ev_rule("executions of a real libcoap client session against a raw peer that ACKs / RSTs only what it received; enumerated: NSTART 1..3 x "
              "all CON/NON type vectors of bursts of 1..4 (thorough 5) messages x one or two bursts x bystander session, and all schedules with "
-             "<= bound deviations (drop / duplicate / reorder of any datagram, timer before delivery, peer verdict RST or silence for CON, RST for NON); "
+             "<= bound deviations (drop / duplicate / reorder of any datagram, timer before delivery, peer verdict RST or silence for CON, RST for NON), plus bursts whose first Confirmable loses every copy and is given up while later ones are held; "
              "non-trivial = deviation taken or retransmission; distinct = distinct observation logs");
   vx_ev_assumption("datagram (UDP) session; the 'before the session is established' clause is exercised with DTLS in the C19 harness");
   for (int i = 0; i < ncfgs; i++)
